@@ -784,6 +784,7 @@ package ro
 
 //@ loop WhileIWithContext$1$1#0
 //@   iteration ensures lastErr == nil
+//@   iteration ensures arg(callfn.condition, 1) == atiter(i) && atend(i) == atiter(i) + 1
 //@   iteration ensures count(callfn.condition) == 1 && count(source.SubscribeWithContext) == 1 && count(attempt.Wait) == 1 && before(callfn.condition, source.SubscribeWithContext) && before(source.SubscribeWithContext, attempt.Wait)
 
 //@ operator ConcatAll
@@ -837,6 +838,15 @@ package ro
 //@   on next(ctx, value) : emits call.Timer.Stop(_), Next(ctx, value), call.Timer.Reset(_, duration)
 //@   on error(ctx, err) : emits call.Timer.Stop(_), Error(ctx, err)
 //@   on complete(ctx) : emits call.Timer.Stop(_), Complete(ctx)
+
+//@ func Never$1$1
+//@   note the waiting goroutine of Never: no value ever; one terminal when the subscription context ends, nothing when the teardown stops it
+//@   props C04 C01 C14 C09
+//@   track destination.* chselect chpoll chrecv.ANY
+//@   ensures [no-value-and-at-most-one-terminal|C04,C01] count(destination.NextWithContext) == 0 && count(destination.ErrorWithContext) + count(destination.CompleteWithContext) <= 1
+//@   ensures [waits-in-one-select-over-the-context-and-the-teardown|C14] count(chselect) == 1 && count(chpoll) == 0 && count(chrecv.ANY) == 0 && watches(chselect, done)
+//@   ensures [an-error-carries-the-subscription-context|C09] called(destination.ErrorWithContext) ==> arg(destination.ErrorWithContext, 0) == subscriberCtx
+//@   ensures [a-completion-carries-the-subscription-context|C09] called(destination.CompleteWithContext) ==> arg(destination.CompleteWithContext, 0) == subscriberCtx
 
 //@ func Interval$1$1
 //@   note the ticking goroutine of Interval: value k is emitted on the k-th tick received, nothing is emitted without a tick
